@@ -3,6 +3,9 @@ C03 — helper lemmas: the balance invariant between Provision and Cleanup event
 -/
 import CaddyModel.C03.Model
 
+set_option linter.unusedSimpArgs false
+set_option linter.unusedVariables false
+
 namespace CaddyModel.C03
 open CaddyModel.Lifecycle
 
@@ -142,5 +145,141 @@ theorem filter_ne_cons_self {i : Inst} {L : List Inst} (h : i ∉ L) : (i :: L).
   intro j hj
   have : j ≠ i := fun e => h (e ▸ hj)
   simpa using this
+
+/-! derived steps for the event lists the model appends -/
+
+theorem Bal.prov_valid {E : List Ev} {L : List Inst} {n : Nat} (h : Bal E L n) (i : Inst) (hi : i.seq = n) :
+    Bal (E ++ [.prov i, .valid i]) (i :: L) (n + 1) := by
+  have := (h.prov i hi).valid i (by omega)
+  simpa [List.append_assoc] using this
+
+theorem Bal.prov_clean {E : List Ev} {L : List Inst} {n : Nat} (h : Bal E L n) (i : Inst) (hi : i.seq = n) :
+    Bal (E ++ [.prov i, .clean i]) L (n + 1) := by
+  have hnot : i ∉ L := fun hm => absurd (h.lfresh i hm) (by omega)
+  have := (h.prov i hi).clean i List.mem_cons_self
+  rw [filter_ne_cons_self hnot] at this
+  simpa [List.append_assoc] using this
+
+theorem Bal.prov_valid_clean {E : List Ev} {L : List Inst} {n : Nat} (h : Bal E L n) (i : Inst) (hi : i.seq = n) :
+    Bal (E ++ [.prov i, .valid i, .clean i]) L (n + 1) := by
+  have hnot : i ∉ L := fun hm => absurd (h.lfresh i hm) (by omega)
+  have := ((h.prov i hi).valid i (by omega)).clean i List.mem_cons_self
+  rw [filter_ne_cons_self hnot] at this
+  simpa [List.append_assoc] using this
+
+theorem Bal.valid_clean {E : List Ev} {L : List Inst} {n : Nat} (i : Inst) (hnot : i ∉ L)
+    (h : Bal E (i :: L) n) : Bal (E ++ [.valid i, .clean i]) L n := by
+  have := (h.valid i (h.lfresh i List.mem_cons_self)).clean i List.mem_cons_self
+  rw [filter_ne_cons_self hnot] at this
+  simpa [List.append_assoc] using this
+
+theorem Bal.clean_head {E : List Ev} {L : List Inst} {n : Nat} (i : Inst) (hnot : i ∉ L)
+    (h : Bal E (i :: L) n) : Bal (E ++ [.clean i]) L n := by
+  have := h.clean i List.mem_cons_self
+  rwa [filter_ne_cons_self hnot] at this
+
+/-! ### state level -/
+
+/-- the balance invariant of a state, for a given set of live instances -/
+def SB (s : State) (L : List Inst) : Prop := Bal s.events L s.nseq
+
+theorem nq_append_probe (live : List Live) (i : Inst) (k : Option Nat) :
+    nq (live ++ [⟨i, k, false⟩]) = nq live ++ [i] := by simp [nq, List.filter_append]
+
+theorem nq_append_quiet (live : List Live) (i : Inst) (k : Option Nat) :
+    nq (live ++ [⟨i, k, true⟩]) = nq live := by simp [nq, List.filter_append]
+
+theorem perm_snoc (G X : List Inst) (i : Inst) : (i :: (G ++ X)).Perm (G ++ (X ++ [i])) := by
+  rw [← List.append_assoc]
+  exact (List.perm_append_singleton i (G ++ X)).symm
+
+theorem loadMod_bal (cid app idx : Nat) (m : Mod) (s : State) (live : List Live) (G : List Inst)
+    (h : SB s (G ++ nq live)) :
+    SB (loadMod cid app idx m s live).1 (G ++ nq (loadMod cid app idx m s live).2.1) := by
+  unfold loadMod
+  split
+  · exact h
+  · unfold loadModAt
+    have hm : SB (alloc s) (G ++ nq live) := Bal.mono h (Nat.le_succ _)
+    split
+    · split
+      · exact hm
+      · split
+        · exact hm
+        · simp only [nq_append_quiet]; exact hm
+    · split
+      · exact Bal.prov_clean h _ rfl
+      · split
+        · exact Bal.prov_valid_clean h _ rfl
+        · simp only [nq_append_probe]
+          exact (Bal.prov_valid h _ rfl).perm (perm_snoc _ _ _)
+
+theorem loadMods_bal (cid app : Nat) (G : List Inst) : ∀ (ms : List Mod) (idx : Nat) (s : State)
+    (live : List Live), SB s (G ++ nq live) →
+    SB (loadMods cid app idx ms s live).1 (G ++ nq (loadMods cid app idx ms s live).2.1)
+  | [], _, _, _, h => h
+  | m :: ms, idx, s, live, h => by
+    unfold loadMods
+    have h1 := loadMod_bal cid app idx m s live G h
+    generalize loadMod cid app idx m s live = r at h1
+    obtain ⟨s', live', o⟩ := r
+    cases o with
+    | none => exact loadMods_bal cid app G ms (idx + 1) s' live' h1
+    | some r => exact h1
+
+theorem loadProbeAppAt_bal (i : Inst) (a : App) (s : State) (live : List Live) (G : List Inst)
+    (hi : i.seq + 1 = s.nseq) (h : Bal s.events (G ++ nq live) i.seq) :
+    SB (loadProbeAppAt i a s live).1 (G ++ nq (loadProbeAppAt i a s live).2.1) := by
+  unfold loadProbeAppAt
+  have h0 : SB (ev s [.prov i]) ((i :: G) ++ nq live) := by
+    have := h.prov i rfl
+    unfold SB
+    show Bal (s.events ++ [Ev.prov i]) (i :: G ++ nq live) s.nseq
+    rw [← hi]
+    exact this
+  have h1 := loadMods_bal i.cid a.name (i :: G) a.mods 1 _ live h0
+  generalize loadMods i.cid a.name 1 a.mods (ev s [.prov i]) live = r at h1
+  obtain ⟨s', live', o⟩ := r
+  have hnot : i ∉ G ++ nq live' := by
+    have := h1.nodup
+    simp only [List.cons_append, List.nodup_cons] at this
+    exact this.1
+  cases o with
+  | some r => exact Bal.clean_head i hnot h1
+  | none =>
+    dsimp only
+    split
+    · exact Bal.clean_head i hnot h1
+    · split
+      · exact Bal.valid_clean i hnot h1
+      · simp only [nq_append_probe]
+        exact (Bal.valid h1 i (h1.lfresh i List.mem_cons_self)).perm (perm_snoc _ _ _)
+
+theorem loadApp_bal (cid : Nat) (a : App) (s : State) (live : List Live) (G : List Inst)
+    (h : SB s (G ++ nq live)) :
+    SB (loadApp cid a s live).1 (G ++ nq (loadApp cid a s live).2.1) := by
+  unfold loadApp
+  split
+  · exact h
+  · split
+    · have h1 := loadMods_bal cid a.name G a.mods 1 s live h
+      generalize loadMods cid a.name 1 a.mods s live = r at h1
+      obtain ⟨s', live', o⟩ := r
+      cases o with
+      | some r => exact h1
+      | none => dsimp only; split <;> exact h1
+    · exact loadProbeAppAt_bal _ a (alloc s) live G rfl h
+
+theorem loadApps_bal (cid : Nat) (G : List Inst) : ∀ (as : List App) (s : State) (live : List Live),
+    SB s (G ++ nq live) → SB (loadApps cid as s live).1 (G ++ nq (loadApps cid as s live).2.1)
+  | [], _, _, h => h
+  | a :: as, s, live, h => by
+    unfold loadApps
+    have h1 := loadApp_bal cid a s live G h
+    generalize loadApp cid a s live = r at h1
+    obtain ⟨s', live', o⟩ := r
+    cases o with
+    | none => exact loadApps_bal cid G as s' live' h1
+    | some r => exact h1
 
 end CaddyModel.C03
